@@ -21,7 +21,7 @@ try:
     subprocess.run(["rsync", "-a", "--exclude", ".git", "/repo/", d + "/repo/"], check=True)
     subprocess.run(["patch", "-p1", "-s", "-i", os.path.join(dst, "patch.diff")], cwd=d + "/repo", check=True)
     for p in [prop] + others:
-        r = subprocess.run(["/verif/check", p], env=dict(os.environ, VERIF_REPO=d + "/repo"), capture_output=True, text=True)
+        r = subprocess.run(["/verif/check", p], env=dict(os.environ, VERIF_REPO=d + "/repo", VERIF_EVIDENCE_DIR=d + "/evidence"), capture_output=True, text=True)
         failed = [l.strip()[8:] for l in r.stdout.splitlines() if l.strip().startswith("failed:")]
         kinds = sorted(set(("bounded" if f.startswith("bounded:") else ("frame" if "/frame#" in f or "/escape#" in f or "/fresh#" in f else "smt")) for f in failed))
         results[p] = {"exit": r.returncode, "caught": r.returncode == 1, "by_backend": kinds, "first_failures": [f[:220] for f in failed[:4]]}
